@@ -231,20 +231,20 @@ def sim_behaviours(c, res, cfg, tag, pre):
 # OPEN finding F4 (the Confirms field of a header is not validated): configurations that must fail in the design;
 # TLC's counterexamples are replayed on the code, where they reproduce (known finding): (key, cfg, violated property, what)
 OPEN = [
-    ("byzq", "MC_DposLib_byzq.cfg", "LibQuorum", "one Byzantine producer makes its own block irreversible (free Confirms)"),
-    ("byza", "MC_DposLib_byza.cfg", "Agreement", "two nodes hold conflicting irreversible blocks, 1 of 4 producers Byzantine"),
-    # finding F5 (UNSAVED): the LIB raised by the Update calls of a reorganisation that is given up is not saved
-    ("unsaved", "MC_DposLib_unsaved.cfg", "RestoreEqualsRecompute", "abandoned reorganisation raises the LIB in memory only; a restart brings the older LIB back"),
-    # finding F6 (STALE2): a proposal made by the valid prefix of a reorganisation that is given up survives
-    ("stale2", "MC_DposLib_stale2.cfg", "ProposalsOnMain", "the valid prefix of an abandoned reorganisation leaves a proposal that is not on the main chain"),
+    ("byzq", "MC_DposLib_byzq.cfg", "LibQuorum", "F4: one Byzantine producer makes its own block irreversible (free Confirms)"),
+    ("byza", "MC_DposLib_byza.cfg", "Agreement", "F4: two nodes hold conflicting irreversible blocks, 1 of 4 producers Byzantine"),
+    # finality side of the open finding C07-valid-prefix-not-adopted
+    ("prefix", "MC_DposLib_prefix.cfg", "LibOnMain", "F7: the valid prefix of a longer branch makes one of its blocks irreversible, a later block fails, the node stays on its old chain"),
 ]
-# The model of the code BEFORE the repairs b495bde5 / a4f2be36 / c846cf0d (Fixes = {}): documented counterexamples, run in the
+# The model of the code BEFORE the repairs (Fixes = {} resp. without persist/onchain): documented counterexamples, run in the
 # thorough tier for the record only (a self-test of the Fixes switches); they are not replayed and cannot change the verdict
 HISTORIC = [
-    ("lazy", "MC_DposLib_lazy.cfg", "Final", "restart, then a longer branch from below the LIB was adopted (status attached lazily)"),
-    ("lazy2", "MC_DposLib_lazy2.cfg", "NoForkBelowLib", "restart, then a block numbered below the LIB was accepted"),
-    ("stale", "MC_DposLib_stale.cfg", "LibOnMain", "a proposal of the abandoned branch became the LIB"),
-    ("lower", "MC_DposLib_lower.cfg", "LibMonotone", "the LIB number decreased after a one-block reorganisation at the tip"),
+    ("lazy", "MC_DposLib_lazy.cfg", "Final", "b495bde5: restart, then a longer branch from below the LIB was adopted (status attached lazily)"),
+    ("lazy2", "MC_DposLib_lazy2.cfg", "NoForkBelowLib", "b495bde5: restart, then a block numbered below the LIB was accepted"),
+    ("stale", "MC_DposLib_stale.cfg", "LibOnMain", "a4f2be36: a proposal of the abandoned branch became the LIB"),
+    ("lower", "MC_DposLib_lower.cfg", "LibMonotone", "c846cf0d: the LIB number decreased after a one-block reorganisation at the tip"),
+    ("unsaved", "MC_DposLib_unsaved.cfg", "RestoreEqualsRecompute", "4cd694af: an abandoned reorganisation raised the LIB in memory only; a restart brought the older LIB back"),
+    ("stale2", "MC_DposLib_stale2.cfg", "ProposalsOnMain", "fb65fdad: the valid prefix of an abandoned reorganisation left a proposal that is not on the main chain"),
 ]
 
 
@@ -259,10 +259,10 @@ def run(c):
     simdir = {k: os.path.join(c.work, "sim_" + k) for k in ("s3", "s4", "s4i")}
     for d in simdir.values():
         os.makedirs(d, exist_ok=True)
-    nsim, dsim = (40, 45) if quick else (400, 60)
+    nsim, dsim = (40, 45) if quick else (300, 60)
     # generation configurations also check all properties: one observer, one restart, every transition
     GENS = [("gen3", "Gen_DposLib.cfg", "gen-T3"), ("gen4", "Gen_DposLib_T4.cfg", "gen-T4"), ("gen4s", "Gen_DposLib_T4s.cfg", "gen-T4s"),
-            ("gen4e", "Gen_DposLib_T4e.cfg", "gen-T4e"), ("gen3w", "Gen_DposLib_T3w.cfg", "gen-T3w"), ("gen4i", "Gen_DposLib_T4i.cfg", "gen-T4i")]
+            ("gen4e", "Gen_DposLib_T4e.cfg", "gen-T4e"), ("gen3w", "Gen_DposLib_T3w.cfg", "gen-T3w"), ("gen4i", "Gen_DposLib_T4i.cfg", "gen-T4i"), ("gen4j", "Gen_DposLib_T4j.cfg", "gen-T4j")]
     CLEAN = [
         ("mc", "MC_DposLib.cfg" if quick else "MC_DposLib_big.cfg", "full protocol, 3 correct producers (= nodes), every interleaving of production, delivery and one restart, %s: all properties" % ("3 blocks" if quick else "4 blocks")),
         ("t3", "MC_DposLib_T3.cfg", "tree T3, TWO observers, every delivery order, 1 restart: all properties"),
@@ -272,9 +272,8 @@ def run(c):
                   ("t4s", "MC_DposLib_T4s.cfg", "tree T4s (reorganisation away from a branch that carried a proposal), 2 restarts: all properties"),
                   ("t4e", "MC_DposLib_T4e.cfg", "tree T4e (fork exactly at the LIB block), 2 restarts: all properties"),
                   ("t3w", "MC_DposLib_T3w.cfg", "tree T3w (chain longer than the rebuild window, fork at the tip), 2 restarts: all properties"),
-                  ("t4i", "MC_DposLib_T4i.cfg", "trees T4i (longer branch with a block that fails in execute() at its 1st/2nd/3rd position; in order and children first), no restart: all properties"),
-                  ("t4ii", "MC_DposLib_T4i_intended.cfg", "PROPOSED repairs persist + onchain: trees T4i, 2 restarts: all properties"),
-                  ("t4ji", "MC_DposLib_T4j_intended.cfg", "PROPOSED repairs persist + onchain: tree T4j, 2 restarts: all properties")]
+                  ("t4i", "MC_DposLib_T4i.cfg", "trees T4i (longer branch with a block that fails in execute() at its 1st/2nd/3rd position; in order and children first), 2 restarts: all properties"),
+                  ("t4j", "MC_DposLib_T4j.cfg", "tree T4j (valid prefix of an abandoned branch makes a proposal), 2 restarts: all properties")]
     jobs = [(k, cfg, 3 if k == "mc" else 1, 1700, None) for (k, cfg, _) in CLEAN]
     jobs += [(k, cfg, 1, 900, None) for (k, cfg, _) in GENS]
     jobs += [
@@ -285,8 +284,8 @@ def run(c):
     if not quick:
         jobs += [(k, cfg, 1, 600, None) for (k, cfg, _, _) in HISTORIC]
         jobs.append(("genfull", "Gen_DposLib_full.cfg", 1, 1500, None))
-        jobs.append(("simint", "Sim_DposLib4i_intended.cfg", 2, 1500, ["-simulate", "num=1500", "-depth", "70", "-seed", str(c.seed * 7919 + 7)]))
-        jobs.append(("simdeep", "Sim_DposLib4.cfg", 3, 1500, ["-simulate", "num=5000", "-depth", "70", "-seed", str(c.seed * 7919 + 5)]))
+        jobs.append(("simint", "Sim_DposLib4i.cfg", 2, 1500, ["-simulate", "num=1000", "-depth", "70", "-seed", str(c.seed * 7919 + 7)]))
+        jobs.append(("simdeep", "Sim_DposLib4.cfg", 3, 1500, ["-simulate", "num=3000", "-depth", "70", "-seed", str(c.seed * 7919 + 5)]))
     with concurrent.futures.ThreadPoolExecutor(max_workers=2) as ex:
         fb = ex.submit(build_harness, c)
         ft = ex.submit(tlc_batch, c, jobs, 5)
@@ -298,13 +297,13 @@ def run(c):
             c.require_ok(R[k], what)
         if not quick:
             r = R["simdeep"]
-            c.add_tlc(r, "simulation, 5000 more behaviours: 4 producers, 1 equivocating, 3 correct nodes, 2 restarts: all properties")
+            c.add_tlc(r, "simulation, 3000 more behaviours: 4 producers, 1 equivocating, 3 correct nodes, 2 restarts: all properties")
             if "Error:" in r.out:
-                raise vlib.Infra("simulation (Sim_DposLib4.cfg, 5000 behaviours) found an error in the design:\n" + r.out[-3000:])
+                raise vlib.Infra("simulation (Sim_DposLib4.cfg, 3000 behaviours) found an error in the design:\n" + r.out[-3000:])
             r = R["simint"]
-            c.add_tlc(r, "design WITH the proposed repairs persist + onchain, simulation with blocks that fail in execute(), 1500 behaviours: all properties")
+            c.add_tlc(r, "simulation with blocks that fail in execute(), 1000 more behaviours (Sim_DposLib4i.cfg), checked only")
             if "Error:" in r.out:
-                raise vlib.Infra("simulation (Sim_DposLib4i_intended.cfg) found an error in the design:\n" + r.out[-3000:])
+                raise vlib.Infra("simulation (Sim_DposLib4i.cfg, 1000 behaviours) found an error in the design:\n" + r.out[-3000:])
             for (k, cfg, prop, what) in HISTORIC:
                 r = R[k]
                 c.add_tlc(r, "model of the code BEFORE the repairs, for the record: counterexample to %s (%s)" % (prop, what))
@@ -313,11 +312,11 @@ def run(c):
         scen = []
         for (k, cfg, prop, what) in OPEN:
             r = R[k]
-            c.add_tlc(r, "finding (F4 Confirms not validated / F5 status not saved), expected counterexample to %s: %s" % (prop, what))
+            c.add_tlc(r, "OPEN finding, expected counterexample to %s: %s" % (prop, what))
             if r.violation != prop or not r.error_trace:
                 raise vlib.Infra("the configuration %s was expected to violate %s, TLC says: %s\n%s" % (cfg, prop, r.violation, r.out[-2000:]))
             scen.append(behaviour_from_error_trace(r, cfg, "open-" + k))
-        c.notes.append("findings F4/F5: TLC counterexamples to %s replayed on the real code" % ", ".join("%s (%s)" % (p, k) for (k, _, p, _) in OPEN))
+        c.notes.append("open findings F4/F7: TLC counterexamples to %s replayed on the real code" % ", ".join("%s (%s)" % (p, k) for (k, _, p, _) in OPEN))
         gen = []
         for (k, cfg, tag) in GENS:
             c.require_ok(R[k], "all properties + transition enumeration, one observer, one restart: " + cfg)
